@@ -107,3 +107,89 @@ func genMapping(a *hx.Args) (int, int, []offer) {
 	}
 	return c[0], c[1], os
 }
+
+// a waiting handler is held between its receive and the manager lock (hook H9) while a pack that must be forwarded to the
+// promised channel arrives: forwardMsg finds nobody serving that channel yet and hands it to a second waiting handler
+func runRace(out *cq.Out) {
+	caseNo++
+	rid := fmt.Sprintf("rid%d", caseNo)
+	ns, nt := 3, 3
+	disp := rfake.NewDispatch()
+	tg := rfake.NewTarget()
+	rm, _ := meta.NewReplicateMetaImpl(&rfake.MemStore{})
+	mgr, err := reader.NewReplicateChannelManager(disp, rfake.Factory{}, tg, config.ReaderConfig{
+		MessageBufferSize: 64, TTInterval: 3600000, Retry: config.RetrySettings{RetryTimes: 1, InitBackOff: 1, MaxBackOff: 1}, ReplicateID: rid,
+		SourceChannelNum: ns, TargetChannelNum: nt,
+	}, rfake.MetaOp{DefaultMetaOp: &api.DefaultMetaOp{}}, rm, nil, "milvus")
+	if err != nil {
+		panic(err)
+	}
+	ctx, cancel := context.WithCancel(context.Background())
+	mgr.SetCtx(ctx)
+	s := &sys{mgr: mgr, disp: disp, target: tg, ctx: util.GetCtxWithTaskID(ctx, "task-"+rid), rid: rid, tpchs: map[string]bool{}, src: map[uint64]msgstream.TsMsg{}, held: map[string]*msgstream.MsgPack{}}
+	srcName := func(i int) string { return fmt.Sprintf("src-dml_%d", i) }
+	tgtName := func(j int) string { return fmt.Sprintf("tgt-dml_%d", j) }
+	grid := func() string {
+		var ps []string
+		reader.VerifChannelMapping(mgr, func(m *util.ChannelMapping, fw map[string]int) {
+			for i := 0; i < ns; i++ {
+				for j := 0; j < nt; j++ {
+					if m.CheckKeyExist(srcName(i), tgtName(j)) {
+						ps = append(ps, cq.Pair(cq.Str(srcName(i)), cq.Str(tgtName(j))))
+					}
+				}
+			}
+		})
+		return cq.List(ps)
+	}
+	var evs, gs []string
+	var colls []*coll
+	start := func(k int, o offer) {
+		id := int64(k + 1)
+		c := &coll{id: id, tid: 9000 + id, name: fmt.Sprintf("c%d", id),
+			src: [][2]string{{fmt.Sprintf("%s_%dv0", srcName(o.l), id), srcName(o.l)}}, tgt: [][2]string{{fmt.Sprintf("%s_%dv0", tgtName(o.s), 9000+id), tgtName(o.s)}},
+			parts: map[string]int64{"_default": 900000 + id}}
+		colls = append(colls, c)
+		tg.Colls[c.name] = &rfake.TColl{ID: c.tid, VChs: []string{c.tgt[0][0]}, PChs: []string{c.tgt[0][1]}, Parts: map[string]int64{"_default": 900000 + id}, Exists: true}
+		_ = mgr.StartReadCollection(s.ctx, &model.DatabaseInfo{ID: 1, Name: "default"}, s.info(c), nil, nil)
+		evs = append(evs, fmt.Sprintf("EOffer %s %s", cq.Str(srcName(o.l)), cq.Str(tgtName(o.s))))
+	}
+	parked := func(d time.Duration) bool {
+		select {
+		case <-waitParked:
+			return true
+		case <-time.After(d):
+			return false
+		}
+	}
+	for k, o := range []offer{{0, 0}, {1, 0}, {2, 0}} {
+		start(k, o)
+		time.Sleep(8 * time.Millisecond)
+		gs = append(gs, grid())
+	}
+	waitRelease = make(chan struct{})
+	waitHold.Store(true)
+	start(3, offer{0, 1}) // the handler of src-dml_0 exists with another downstream channel: tgt-dml_1 is promised to a waiting handler
+	first := parked(2 * time.Second)
+	gs = append(gs, grid())
+	c4 := colls[3]
+	dl := time.Now().Add(2 * time.Second)
+	for !disp.Registered(c4.src[0][0]) && time.Now().Before(dl) {
+		time.Sleep(time.Millisecond)
+	}
+	// a pack of the fourth collection: its downstream channel is tgt-dml_1, the handler that read it serves tgt-dml_0
+	s.apply(label{kind: "feed", c: c4, svch: c4.src[0][0], spch: c4.src[0][1], begin: 100, end: 110, nstart: 1,
+		msgs: []smsg{{kind: "insert", id: 1, coll: c4.id, part: 1, pname: "_default", ts: 105, rows: 1}}})
+	second := parked(time.Second)
+	evs = append(evs, fmt.Sprintf("EMsgFwd %s", cq.Str(tgtName(1))))
+	gs = append(gs, grid())
+	waitHold.Store(false)
+	close(waitRelease)
+	time.Sleep(80 * time.Millisecond)
+	gs = append(gs, grid())
+	cancel()
+	out.Add(fmt.Sprintf("{| mc_src := %s; mc_tgt := %s; mc_events := %s; mc_grids := %s |}", cq.Nat(ns), cq.Nat(nt), cq.List(evs), cq.List(gs)))
+	out.Count(fmt.Sprintf("race: first waiting handler held=%v, second reached by forwardMsg=%v", first, second))
+	out.NonTrivial("race")
+	out.Sample(map[string]interface{}{"tag": "corpus: forwardMsg reaches a second waiting handler while the first is held before the lock", "events": evs, "final": gs[len(gs)-1]})
+}
